@@ -70,6 +70,25 @@ def names_sweep(gen, rng, sample=None):
     return out
 
 
+def chains(gen, rng, sample=None):
+    """one operator name repeated: a op b op c (op d), read from the left, and the same with the right operand parenthesised -
+    every operator spelled with symbols, and every (thorough) or a sample of the operators spelled as words"""
+    P = gen.p
+    sym = [(k, nm) for k, nm in P.all_binary if not (nm[0].isalpha() or nm[0] == "_")]
+    word = [(k, nm) for k, nm in P.all_binary if nm[0].isalpha() or nm[0] == "_"]
+    if sample is not None:
+        word = rng.sample(word, min(sample, len(word)))
+    out = []
+    for k, nm in sym + word:
+        a, b, c, d = gen.atom(), gen.atom(), gen.atom(), gen.atom()
+        op = lambda x, y: ("bin", k, S.recase(rng, nm), x, y)
+        out.append(("chain:L3", [("expr", op(op(a, b), c))]))
+        out.append(("chain:R3", [("expr", op(a, op(b, c)))]))
+        out.append(("chain:L4", [("expr", op(op(op(a, b), c), d))]))
+        out.append(("chain:M4", [("expr", op(op(a, op(b, c)), d))]))
+    return out
+
+
 def garbage(rng, n):
     alpha = list(b"aftpruexl_AFTP019.+-*/%^!<>=&|#:$\"'()[]{};, \t\n\r?@\\~`") + [0x80, 0xff, 0x0b]
     words = [b"true", b"false", b"private", b"tru", b"fals", b"priv", b"TRUE", b"Private", b"0x", b"0x1f", b"$", b"$g", b"1e", b"1e+", b"1.",
@@ -148,6 +167,8 @@ def main(replay=None):
             add_tree("random:d%d" % depth, ss, rng.choice([0.0, 0.0, 0.15, 0.4]), rng.choice([0.0, 0.3, 0.8]))
         for kind, ss in names_sweep(gen, rng, None if thorough else 150):
             add_tree(kind, ss, rng.choice([0.0, 0.2]), 0.3)
+        for kind, ss in chains(gen, rng, None if thorough else 60):
+            add_tree(kind, ss, rng.choice([0.0, 0.0, 0.3]), 0.3)
         # the recorded defect: a unary+nular name used as an operand (real names first, then the harness's own)
         for nm in (P.real_UN + [n for n in P.UN if n not in P.real_UN]):
             for ss in ([("assign", "x", ("nul", nm))], [("expr", ("bin", 6, "*", ("nul", S.recase(rng, nm)), ("num", "1")))],
@@ -241,7 +262,7 @@ def main(replay=None):
     run.cov["evaluations"] = 2 * len(cases)
     run.cov["distinct_nontrivial"] = len(distinct)
     run.cov["rule"] = ("expression trees over literals, variables, arrays, code blocks, statements and every class of registered operator "
-                       "(all 400 parent/child level shapes, random trees of depth <= 6, boundary cases, a sweep over operator names), printed with "
+                       "(all 400 parent/child level shapes, random trees of depth <= 6, boundary cases, a sweep over operator names, chains of one operator name repeated), printed with "
                        "minimal or redundant parentheses, random separators, whitespace and letter case; plus damaged renderings and character "
                        "soup compared model-vs-implementation only. A case is non-trivial when the implementation's listing equals the "
                        "post-order of the documented reading; distinct by that listing")
